@@ -4,10 +4,11 @@
 -/
 import Spec.Judge
 import Spec.Vector
+import Spec.Helpers
 
 namespace Spec
 
-def handlers : List (String → Req → Option String) := [handleCore, Vector.handle]
+def handlers : List (String → Req → Option String) := [handleCore, Vector.handle, Helpers.handle]
 
 def judgeLine (line : String) : String :=
   let (cmd, r) := parseReq line
